@@ -48,7 +48,7 @@ def run_seed(seed_dir):
     try:
         subprocess.run('cp -r /repo %s/repo && rm -rf %s/repo/.git && cd %s/repo && git init -q . && git add -A >/dev/null 2>&1 '
                        '&& git -c user.email=x@y -c user.name=x commit -qm base >/dev/null 2>&1' % (d, d, d), shell=True, check=True)
-        subprocess.run('rsync -a --exclude .git --exclude .work --exclude replays /verif/ %s/verif/' % d, shell=True, check=True)
+        subprocess.run('rsync -a --exclude .git --exclude .work --exclude replays %s/ %s/verif/' % (os.environ.get('CGV_VERIF_SRC', '/verif').rstrip('/'), d), shell=True, check=True)
         ap = subprocess.run('cd %s/repo && git apply %s' % (d, patch), shell=True, capture_output=True, text=True)
         if ap.returncode != 0:
             return sid, {'_error': 'patch does not apply to /repo HEAD: ' + ap.stderr[:200]}
@@ -89,13 +89,15 @@ def main(argv):
         seeds = [s for s in seeds if os.path.basename(s.rstrip('/')) in only]
     head = subprocess.run('git -C /repo rev-parse --short HEAD', shell=True, capture_output=True, text=True).stdout.strip()
     with ThreadPoolExecutor(max_workers=jobs) as ex:
-        results = dict(ex.map(run_seed, seeds))
-    for sid, res in results.items():
-        mp = '/verif/seeded/%s/meta.json' % sid
-        m = json.load(open(mp))
-        m['detected_by'] = {'repo_head': head, 'how': 'tools/run_seeded.py: patch applied to a scratch copy of /repo, '
-                            './check <property> --tier quick from a scratch copy of /verif (CGV_REPO)', 'checks': res}
-        json.dump(m, open(mp, 'w'), indent=1)
+        for sid, res in ex.map(run_seed, seeds):     # recorded as they finish (in seed order)
+            mp = '/verif/seeded/%s/meta.json' % sid
+            m = json.load(open(mp))
+            m['detected_by'] = {'repo_head': head, 'how': 'tools/run_seeded.py: patch applied to a scratch copy of /repo, '
+                                './check <property> --tier quick from a scratch copy of /verif (CGV_REPO)', 'checks': res}
+            json.dump(m, open(mp, 'w'), indent=1)
+            print(sid, {p: ('input' if r.get('violation') and not r.get('no_failing_input_found') else
+                            'noinput' if r.get('violation') else 'silent') if isinstance(r, dict) else r
+                        for p, r in res.items()}, flush=True)
     write_results()
 
 
